@@ -337,8 +337,11 @@ public:
       data->type = mapType;
       data->ref = 1;
     }
-    else
-      *(HashMap<String, Variant>*)(data + 1) = other;
+    else if(&other != (HashMap<String, Variant>*)(data + 1))
+    {
+      HashMap<String, Variant> copy(other);
+      ((HashMap<String, Variant>*)(data + 1))->swap(copy);
+    }
     return *this;
   }
 
@@ -378,8 +381,11 @@ public:
       data->type = listType;
       data->ref = 1;
     }
-    else
-      *(List<Variant>*)(data + 1) = other;
+    else if(&other != (List<Variant>*)(data + 1))
+    {
+      List<Variant> copy(other);
+      ((List<Variant>*)(data + 1))->swap(copy);
+    }
     return *this;
   }
 
@@ -419,8 +425,11 @@ public:
       data->type = arrayType;
       data->ref = 1;
     }
-    else
-      *(Array<Variant>*)(data + 1) = other;
+    else if(&other != (Array<Variant>*)(data + 1))
+    {
+      Array<Variant> copy(other);
+      ((Array<Variant>*)(data + 1))->swap(copy);
+    }
     return *this;
   }
 
